@@ -527,30 +527,61 @@ static RSRC_TYPES: [Option<&str>; 25] = [
 mod serde {
 	use crate::util::serde_helper::*;
 
-	use super::{DataEntry, Directory, DirectoryEntry, Name, Resources};
+	use std::cell::Cell;
 
-	// Rename the toplevel directory ids to their names
-	struct NamedDirectoryEntry<'a>(DirectoryEntry<'a>);
-	impl<'a> Serialize for NamedDirectoryEntry<'a> {
+	use super::{DataEntry, Directory, DirectoryEntry, Entry, Name, Resources};
+
+	// Serializes no more directories than a well formed tree can possibly have and not nested too deep,
+	// directories which are shared or contain themselves are cut off with null
+	#[derive(Copy, Clone)]
+	struct Limit<'b> {
+		depth: u32,
+		budget: &'b Cell<usize>,
+		named: bool,
+	}
+	struct Limited<'b, T>(T, Limit<'b>);
+
+	impl<'a, 'b> Serialize for Limited<'b, Directory<'a>> {
 		fn serialize<S: Serializer>(&self, serializer: S) -> Result<S::Ok, S::Error> {
+			let Limited(dir, limit) = self;
+			if limit.depth >= super::FSCK_MAX_DEPTH || limit.budget.get() == 0 {
+				return serializer.serialize_none();
+			}
+			limit.budget.set(limit.budget.get() - 1);
+			let limit = Limit { depth: limit.depth + 1, budget: limit.budget, named: limit.named };
+			serializer.collect_seq(dir.entries().map(|e| Limited(e, limit)))
+		}
+	}
+	impl<'a, 'b> Serialize for Limited<'b, DirectoryEntry<'a>> {
+		fn serialize<S: Serializer>(&self, serializer: S) -> Result<S::Ok, S::Error> {
+			let Limited(e, limit) = self;
 			let mut state = serializer.serialize_struct("DirectoryEntry", 2)?;
-			state.serialize_field("name", &self.0.name().ok().map(|name| name.rename_id(&super::RSRC_TYPES)))?;
-			state.serialize_field(if self.0.is_dir() { "directory" } else { "data" }, &self.0.entry().ok())?;
+			// Rename the toplevel directory ids to their names
+			let names: &[Option<&str>] = if limit.named { &super::RSRC_TYPES } else { &[] };
+			state.serialize_field("name", &e.name().ok().map(|name| name.rename_id(names)))?;
+			let limit = Limit { named: false, ..*limit };
+			match e.entry().ok() {
+				Some(Entry::Directory(dir)) => state.serialize_field("directory", &Some(Limited(dir, limit)))?,
+				Some(Entry::DataEntry(data)) => state.serialize_field("data", &Some(data))?,
+				None => state.serialize_field(if e.is_dir() { "directory" } else { "data" }, &None::<()>)?,
+			}
 			state.end()
 		}
 	}
 
 	impl<'a> Serialize for Resources<'a> {
 		fn serialize<S: Serializer>(&self, serializer: S) -> Result<S::Ok, S::Error> {
+			let budget = Cell::new(self.fsck_budget());
 			match self.root() {
-				Ok(root) => serializer.collect_seq(root.entries().map(NamedDirectoryEntry)),
+				Ok(root) => Limited(root, Limit { depth: 0, budget: &budget, named: true }).serialize(serializer),
 				Err(_) => serializer.serialize_none(),
 			}
 		}
 	}
 	impl<'a> Serialize for Directory<'a> {
 		fn serialize<S: Serializer>(&self, serializer: S) -> Result<S::Ok, S::Error> {
-			serializer.collect_seq(self.entries())
+			let budget = Cell::new(self.resources.fsck_budget());
+			Limited(*self, Limit { depth: 0, budget: &budget, named: false }).serialize(serializer)
 		}
 	}
 	impl<'a> Serialize for Name<'a> {
@@ -564,10 +595,8 @@ mod serde {
 	}
 	impl<'a> Serialize for DirectoryEntry<'a> {
 		fn serialize<S: Serializer>(&self, serializer: S) -> Result<S::Ok, S::Error> {
-			let mut state = serializer.serialize_struct("DirectoryEntry", 2)?;
-			state.serialize_field("name", &self.name().ok())?;
-			state.serialize_field(if self.is_dir() { "directory" } else { "data" }, &self.entry().ok())?;
-			state.end()
+			let budget = Cell::new(self.resources.fsck_budget());
+			Limited(*self, Limit { depth: 0, budget: &budget, named: false }).serialize(serializer)
 		}
 	}
 	impl<'a> Serialize for DataEntry<'a> {
